@@ -39,6 +39,7 @@ INVARIANT TopRowInv
 INVARIANT MirrorInv
 INVARIANT ClosedFormInv
 INVARIANT CodeShapeInv
+INVARIANT BoundaryInv
 INVARIANT Emit
 PROPERTY Refines
 CHECK_DEADLOCK FALSE
@@ -61,6 +62,7 @@ def mc_module(cfgs):
 # ------------------------------------------------------------------------------------------------
 
 def angles(rec):
+    """TLC's integer units as the floats a caller would pass.  Returns ks, js, lon, lat."""
     import numpy as np
     nx, ny, g = rec["nx"], rec["ny"], rec["g"]
     period = 4 * nx * g
@@ -74,71 +76,158 @@ def angles(rec):
     return ks, js, lon, lat
 
 
+def grid_renderings(rec):
+    """Grid family: the same edge / centre angle written the ways client code writes it.  Returns a list of (lon, lat)
+    float vectors, all denoting TLC's units ks / js (a point on an edge may resolve to either neighbour, whatever the
+    last bit of the float is)."""
+    import numpy as np
+    from fractions import Fraction
+    nx, ny, g = rec["nx"], rec["ny"], rec["g"]
+    period = 4 * nx * g
+    pole = 2 * ny * g
+    ks = [int(k) for k in rec["ks"]]
+    js = [int(j) for j in rec["js"]]
+    out = []
+    # (a) unit * step
+    _, _, lon_a, lat_a = angles(rec)
+    out.append((lon_a, lat_a))
+    # (b) reduced fraction of pi: k = period/2 -> exactly math.pi, 3*period/2 -> 3*math.pi, edges as c*2*pi/nx - pi ...
+    lon_b = np.array([math.pi * Fraction(2 * k, period).numerator / Fraction(2 * k, period).denominator for k in ks])
+    lat_b = np.array([math.pi * Fraction(j, 2 * pole).numerator / Fraction(j, 2 * pole).denominator for j in js])
+    lat_b = np.clip(lat_b, -math.pi / 2, math.pi / 2)
+    out.append((lon_b, lat_b))
+    # (c) principal value plus whole turns: (k mod period) * 2*pi/period - pi + 2*pi*t, the way "edge c of the map" is computed
+    lon_c = np.array([((k + period // 2) % period) * (2 * math.pi / period) - math.pi + 2 * math.pi * ((k + period // 2) // period) for k in ks])
+    lat_c = np.array([math.pi / 2 - (pole - j) * (math.pi / (2 * pole)) for j in js])
+    lat_c = np.clip(lat_c, -math.pi / 2, math.pi / 2)
+    out.append((lon_c, lat_c))
+    return out
+
+
 def replay_table(ctx, rec, S, gal_tools):
     """Returns the number of sampler evaluations."""
     import numpy as np
     v, nx, ny, g = rec["v"], rec["nx"], rec["ny"], rec["g"]
+    grid = rec["mode"] == "grid"
     ks, js, lon, lat = angles(rec)
-    exp = np.array(rec["cells"], dtype=np.int64)                   # [lat index][lon index]
+    # cand[a][b] = the admissible arange-map values (1 value off the edges; up to 4 on them, padded by repetition)
+    if grid:
+        cand = np.array([[(c + c[-1:] * 4)[:4] for c in row] for row in rec["cells"]], dtype=np.int64)
+    else:
+        cand = np.array(rec["cells"], dtype=np.int64)[..., None]
     LON, LAT = np.meshgrid(lon, lat)
     scalar_map = np.arange(nx * ny, dtype=np.int64).reshape(ny, nx)
+    other_map = (nx * ny - 1) - scalar_map                           # a second map: same shape, different content
     rgb_map = (3 * scalar_map[..., None] + np.arange(3)).astype(np.int32)
     case = {"layout": v, "nx": nx, "ny": ny, "g": g, "mode": rec["mode"],
             "lon_unit": "2*pi/%d" % (4 * nx * g), "lat_unit": "pi/%d" % (4 * ny * g)}
     n = 0
 
-    def judge(name, label, make, lon_a, lat_a, want, colour):
+    def judge_out(name, label, call, lon_a, lat_a, want, colour, decode, what="cell", hist=""):
+        """call() -> sampler output for the request (lon_a, lat_a); want[..., i] = admissible arange-map values;
+        decode(out) -> arange-map value per point (and False where the colour planes are inconsistent)."""
         nonlocal n
         key = "C11:%s" % name
         n += 1
         try:
-            out = np.asarray(make()(lon_a, lat_a))
+            out = np.asarray(call())
         except Exception as e:  # noqa - an IndexError is "indexes outside the map"; anything else is no answer at all
-            ctx.violation(key + ":raises", "%s on a %dx%d %s map raised %r for a request of shape %s"
-                          % (name, ny, nx, label, e, lon_a.shape), dict(case, request_shape=list(lon_a.shape)))
+            ctx.violation(key + ":raises", "%s on a %dx%d %s map raised %r for a request of shape %s%s"
+                          % (name, ny, nx, label, e, lon_a.shape, hist), dict(case, request_shape=list(lon_a.shape)))
             return
         if out.shape != lon_a.shape + colour:
-            ctx.violation(key + ":shape", "%s on a %s map of shape %s: request shape %s gives result shape %s, expected %s"
-                          % (name, label, (ny, nx) + colour, lon_a.shape, out.shape, lon_a.shape + colour),
+            ctx.violation(key + ":shape", "%s on a %s map of shape %s: request shape %s gives result shape %s, expected %s%s"
+                          % (name, label, (ny, nx) + colour, lon_a.shape, out.shape, lon_a.shape + colour, hist),
                           dict(case, request_shape=list(lon_a.shape)))
             return
-        bad = np.argwhere(out != want)
+        val, consistent = decode(out)
+        ok = (val[..., None] == want).any(axis=-1) & consistent
+        bad = np.argwhere(~ok)
         if len(bad):
             first = bad[int(np.argmin(np.abs(lon_a[bad[:, 0], bad[:, 1]])))]       # report the mismatch nearest lon 0
             ia, ib = int(first[0]), int(first[1])
             lo, la = float(lon_a[ia, ib]), float(lat_a[ia, ib])
-            e = want[tuple(first)]
-            o = out[tuple(first)]
-            div = 3 if colour else 1
-            ctx.violation(key + ":cell",
-                          "%s, %dx%d (ny x nx) %s map: at lon=%.12g lat=%.12g the containing pixel is (row %d, col %d) "
-                          "but the sampler returned the value of (row %d, col %d); %d of %d points differ"
-                          % (name, ny, nx, label, lo, la, (int(e) // div) // nx, (int(e) // div) % nx,
-                             (int(o) // div) // nx, (int(o) // div) % nx, len(bad), want.size // (3 if colour else 1)),
-                          dict(case, lon=lo, lat=la, expected_value=int(e), got_value=int(o)))
+            adm = sorted(set(int(x) for x in want[ia, ib]))
+            o = int(val[ia, ib])
+            ctx.violation(key + ":" + what,
+                          "%s, %dx%d (ny x nx) %s map: at lon=%.17g lat=%.17g the %s %s but the sampler returned the value of "
+                          "(row %d, col %d); %d of %d points differ%s"
+                          % (name, ny, nx, label, lo, la,
+                             "containing pixel is" if len(adm) == 1 else "point is on a cell edge and the adjacent pixels are",
+                             ", ".join("(row %d, col %d)" % (a // nx, a % nx) for a in adm), o // nx, o % nx, len(bad), ok.size, hist),
+                          dict(case, lon=lo, lat=la, expected_value=adm, got_value=o))
+
+    def dec_scalar(out):
+        return out.astype(np.int64), np.ones(out.shape, dtype=bool)
+
+    def dec_other(out):
+        return (nx * ny - 1) - out.astype(np.int64), np.ones(out.shape, dtype=bool)
+
+    def dec_rgb(out):
+        o = out.astype(np.int64)
+        return o[..., 0] // 3, (o[..., 1] == o[..., 0] + 1) & (o[..., 2] == o[..., 0] + 2) & (o[..., 0] % 3 == 0)
+
+    def battery(name, make, LONr, LATr, want):
+        """one sampler factory, one request grid: maps, request shapes, then the call-history sequence"""
+        f_scalar = make(scalar_map)
+        judge_out(name, "scalar", lambda: f_scalar(LONr, LATr), LONr, LATr, want, (), dec_scalar)
+        judge_out(name, "RGB", lambda: make(rgb_map)(LONr, LATr), LONr, LATr, want, (3,), dec_rgb)
+        # other request shapes: transposed grid, a single row, a single point
+        judge_out(name, "RGB", lambda: make(rgb_map)(LONr.T.copy(), LATr.T.copy()), LONr.T.copy(), LATr.T.copy(),
+                  np.transpose(want, (1, 0, 2)), (3,), dec_rgb)
+        flat = (1, LONr.size)
+        judge_out(name, "scalar", lambda: f_scalar(LONr.reshape(flat), LATr.reshape(flat)), LONr.reshape(flat), LATr.reshape(flat),
+                  want.reshape(flat + want.shape[2:]), (), dec_scalar)
+        judge_out(name, "scalar", lambda: make(scalar_map.tolist())(LONr[:1, :1], LATr[:1, :1]), LONr[:1, :1], LATr[:1, :1],
+                  want[:1, :1], (), dec_scalar)
+        # ---- every point's answer is independent of the call history.  Request B has the shape, the first and the last
+        # element (hence every order-insensitive digest too) of request A but its interior points are permuted; both are
+        # asked of two live sampler objects built from different maps, alternately, and once through the same array
+        # objects mutated in place.  Expected values: TLC's table, permuted the same way.
+        if LONr.size >= 4:
+            perm = np.arange(LONr.size)
+            inner = perm[1:-1].copy()
+            ctx.rng.shuffle(inner)
+            if (inner == perm[1:-1]).all():
+                inner = inner[::-1].copy()
+            perm[1:-1] = inner
+            shp = LONr.shape
+            LONb, LATb = LONr.ravel()[perm].reshape(shp), LATr.ravel()[perm].reshape(shp)
+            wantb = want.reshape((-1,) + want.shape[2:])[perm].reshape(want.shape)
+            f_other = make(other_map)
+            h = " [call history: %s]"
+            judge_out(name, "scalar", lambda: f_scalar(LONb, LATb), LONb, LATb, wantb, (), dec_scalar, "history",
+                      h % "same sampler, previous request had the same shape, first and last point but other interior points")
+            judge_out(name, "second", lambda: f_other(LONb, LATb), LONb, LATb, wantb, (), dec_other, "history",
+                      h % "identical request just answered by a sampler built from another map")
+            judge_out(name, "scalar", lambda: f_scalar(LONr, LATr), LONr, LATr, want, (), dec_scalar, "history",
+                      h % "A, B, then A again; another map's sampler called in between")
+            judge_out(name, "second", lambda: f_other(LONr, LATr), LONr, LATr, want, (), dec_other, "history",
+                      h % "two samplers called alternately")
+            buf_lon, buf_lat = LONr.copy(), LATr.copy()
+            f_scalar(buf_lon, buf_lat)
+            buf_lon[...] = LONb
+            buf_lat[...] = LATb
+            judge_out(name, "scalar", lambda: f_scalar(buf_lon, buf_lat), buf_lon, buf_lat, wantb, (), dec_scalar, "history",
+                      h % "the same request arrays, modified in place since the previous call")
 
     name = SAMPLER_OF[v]
-    fn = getattr(S, name)
-    exp_rgb = 3 * exp[..., None] + np.arange(3)
-    judge(name, "scalar", lambda: fn(scalar_map), LON, LAT, exp, ())
-    judge(name, "RGB", lambda: fn(rgb_map), LON, LAT, exp_rgb, (3,))
-    # other request shapes: transposed grid, a single row, a single point
-    judge(name, "RGB", lambda: fn(rgb_map), LON.T.copy(), LAT.T.copy(), np.transpose(exp_rgb, (1, 0, 2)), (3,))
-    judge(name, "scalar", lambda: fn(scalar_map), LON.reshape(1, -1), LAT.reshape(1, -1), exp.reshape(1, -1), ())
-    judge(name, "scalar", lambda: fn(scalar_map.tolist()), LON[:1, :1], LAT[:1, :1], exp[:1, :1], ())
+    requests = grid_renderings(rec) if grid else [(lon, lat)]
+    for lon_r, lat_r in requests:
+        LONr, LATr = np.meshgrid(lon_r, lat_r)
+        battery(name, getattr(S, name), LONr, LATr, cand)
     if v == "sky":
         # Galactic map: the table's angles are Galactic (l, b); ask the sampler at their ICRS pre-images.
         SkyCoord, Galactic, u = gal_tools
-        inner = np.abs(js) != 2 * ny * g               # at a pole the longitude is undefined
-        if inner.any():
-            l_a, b_a = LON[inner], LAT[inner]
+        inner_rows = np.abs(js) != 2 * ny * g               # at a pole the longitude is undefined
+        if inner_rows.any():
+            l_a, b_a = LON[inner_rows], LAT[inner_rows]
             icrs = SkyCoord(l=l_a * u.rad, b=b_a * u.rad, frame=Galactic).icrs
             ra, dec = icrs.ra.rad, icrs.dec.rad
-            judge("plate_carree_galactic_sampler", "scalar", lambda: S.plate_carree_galactic_sampler(scalar_map),
-                  ra, dec, exp[inner], ())
+            battery("plate_carree_galactic_sampler", S.plate_carree_galactic_sampler, ra, dec, cand[inner_rows])
             sub = slice(None, None, 3)
-            judge("plate_carree_galactic_sampler", "RGB", lambda: S.plate_carree_galactic_sampler(rgb_map),
-                  ra[:, sub] + 2 * math.pi, dec[:, sub], exp_rgb[inner][:, sub], (3,))
+            judge_out("plate_carree_galactic_sampler", "RGB", lambda: S.plate_carree_galactic_sampler(rgb_map)(ra[:, sub] + 2 * math.pi, dec[:, sub]),
+                      ra[:, sub] + 2 * math.pi, dec[:, sub], cand[inner_rows][:, sub], (3,), dec_rgb)
     return n
 
 
@@ -168,6 +257,8 @@ def run(ctx):
         runs.append(configs(small, 1, "full", 10 ** 6))
         edge_shapes = [(nx, ny) for nx in (1, 2, 3, 4, 5, 7, 8, 12) for ny in (1, 2, 3, 5, 8)]
         runs.append(configs(edge_shapes, 25000, "edge", 100))
+        grid_shapes = [(nx, ny) for nx in (1, 2, 3, 4, 5, 6, 8, 12) for ny in (1, 2, 3, 4, 8)]
+        runs.append(configs(grid_shapes, 1, "grid", 10 ** 6))
     else:
         big = [(16, 8), (24, 12), (25, 13), (32, 16), (45, 8), (48, 24), (64, 32), (100, 3), (3, 100), (128, 2)]
         runs.append(configs(small + big + [(256, 4), (5, 200)], 1, "full", 10 ** 6))
@@ -175,6 +266,7 @@ def run(ctx):
         runs.append(configs([(nx, ny) for nx in range(1, 13) for ny in (1, 2, 5, 12)], 3, "full", 10 ** 6))
         runs.append(configs(small + big, 25000, "edge", 100))
         runs.append(configs(small, 10 ** 6, "edge", 10))
+        runs.append(configs(small + big, 1, "grid", 10 ** 6))
     ntab = 0
     for cfgs in runs:
         r = ctx.tlc("MCPlateCarree", extra={"MCPlateCarree.tla": mc_module(cfgs)}, cfg_text=CFG, workers=8, timeout=3000)
